@@ -85,6 +85,78 @@ def sub_multiset(xs, ys):
     return True
 
 
+def witness_concurrent_rerun(out, findings):
+    """Model-free lock-step witness for the fault clause of C15 ("cache faults while dependency outputs are being loaded"):
+    dependency //:x (slow, writes its output in two steps) is a cache hit whose blob is lost; its dependants d1 and d2 were edited
+    and have to run; d2 also waits for a second dependency y, so it becomes ready a little after d1.  Under `all` x is re-made
+    once at its own node.  Under `minimal` each dependant finds x unrestorable: if BOTH re-make it, the two runs of x's command
+    interleave on x.txt, a dependant reads a torn file, and the torn bytes are cached.  Oracle: every declared output has the bytes
+    of the mode-all run (= the from-scratch bytes), and x's command ran once."""
+    import os, shutil, subprocess
+    grog = vlib.build_grog()
+    base = os.path.join(vlib.scratch(), "concrerun")
+    shutil.rmtree(base, ignore_errors=True)
+    obs = {}
+    for mode in ("all", "minimal"):
+        d = os.path.join(base, mode)
+        ws, root = os.path.join(d, "ws"), os.path.join(d, "root")
+        os.makedirs(ws); os.makedirs(root)
+        json.dump({"targets": [
+            {"name": "x", "inputs": ["x.in"], "outputs": ["x.txt"],
+             "command": 'echo x >> "$CMDLOG"; rm -f x.txt; sleep 0.3; printf part1- > x.txt; sleep 0.3; cat x.in >> x.txt'},
+            {"name": "y", "inputs": ["y.in"], "outputs": ["y.txt"], "command": 'echo y >> "$CMDLOG"; sleep 0.15; cp y.in y.txt'},
+            {"name": "d1", "inputs": ["d1.in"], "dependencies": [":x"], "outputs": ["d1.txt"], "command": 'echo d1 >> "$CMDLOG"; cat x.txt d1.in > d1.txt'},
+            {"name": "d2", "inputs": ["d2.in"], "dependencies": [":x", ":y"], "outputs": ["d2.txt"],
+             "command": 'echo d2 >> "$CMDLOG"; cat x.txt y.txt d2.in > d2.txt'}]}, open(os.path.join(ws, "BUILD.json"), "w"))
+        open(os.path.join(ws, "grog.toml"), "w").write('load_outputs = "%s"\nnum_workers = 4\n' % mode)
+        xin = "content-of-x-long-enough-to-be-found-in-the-cas\n"
+        for f, c in (("x.in", xin), ("y.in", "y1\n"), ("d1.in", "v1\n"), ("d2.in", "v1\n")):
+            open(os.path.join(ws, f), "w").write(c)
+        env = bl.grog_env(root, os.path.join(d, "trace"), {"CMDLOG": os.path.join(d, "cmd.log")})
+        env.pop("GROG_NUM_WORKERS", None)
+        run1 = lambda: subprocess.run([grog, "build"], cwd=ws, env=env, stdout=subprocess.PIPE, stderr=subprocess.PIPE, text=True, timeout=120)
+        p1 = run1()
+        for f in ("x.txt", "y.txt", "d1.txt", "d2.txt"):
+            if os.path.exists(os.path.join(ws, f)):
+                os.unlink(os.path.join(ws, f))
+        for f, c in (("y.in", "y2\n"), ("d1.in", "v2\n"), ("d2.in", "v2\n")):
+            open(os.path.join(ws, f), "w").write(c)
+        lost = 0
+        for dp, dn, fn in os.walk(root):
+            if os.path.basename(dp) == "cas":
+                for f in fn:
+                    q = os.path.join(dp, f)
+                    if open(q, errors="replace").read() == "part1-" + xin:
+                        os.unlink(q); lost += 1
+        open(os.path.join(d, "cmd.log"), "w").close()
+        p2 = run1()
+        rd = lambda f: open(os.path.join(ws, f)).read() if os.path.exists(os.path.join(ws, f)) else None
+        obs[mode] = {"rc1": p1.returncode, "rc2": p2.returncode, "blobs_lost": lost, "commands": open(os.path.join(d, "cmd.log")).read().split(),
+                     "outputs": {f: rd(f) for f in ("x.txt", "y.txt", "d1.txt", "d2.txt")}}
+    shutil.rmtree(base, ignore_errors=True)
+    a, m = obs["all"], obs["minimal"]
+    desc = {"targets": "x (slow, two-step write) <- d1; x, y <- d2", "history": "build; remove all outputs; edit y.in, d1.in, d2.in; delete the CAS blob "
+            "of x.txt; build (num_workers 4)", "observed": obs}
+    if a["rc1"] or m["rc1"] or a["blobs_lost"] != 1 or m["blobs_lost"] != 1 or a["rc2"] != 0:
+        out.violation("concurrent-rerun witness: set-up failed: %s" % {k: (v["rc1"], v["rc2"], v["blobs_lost"]) for k, v in obs.items()}, desc, no_input=True)
+        return 1
+    what = None
+    if m["rc2"] != a["rc2"]:
+        what = "mode all exits %s, mode minimal exits %s" % (a["rc2"], m["rc2"])
+    elif m["outputs"] != a["outputs"]:
+        bad = sorted(f for f in a["outputs"] if a["outputs"][f] != m["outputs"][f])
+        what = "outputs %s materialised under minimal differ from mode all (%r vs %r)" % (bad, m["outputs"][bad[0]], a["outputs"][bad[0]])
+    if what:
+        what = ("a dependency whose blob is lost is re-made by two dependants at the same time under load_outputs=minimal (its command ran %d "
+                "times, interleaved): %s" % (m["commands"].count("x"), what))
+        f = findings.get("concurrent-dependency-rerun")
+        if f:
+            out.known(f["id"], what)
+        else:
+            out.violation(what, desc)
+    return 1
+
+
 def witness_rerun_fails(out):
     """Model-free lock-step witness (the generator's commands are idempotent, so Build.v cannot express it): dependency //:a is a
     cache hit whose blob is lost; its dependants were edited and have to run; the command of //:a cannot be re-run (it refuses to
@@ -195,6 +267,7 @@ def run(out, tier):
     hc.check_plan_errors(batch)
     findings = {f["class"]: f for f in vlib.known_findings("C15")}
     evals = witness_rerun_fails(out) + (len(dl[0]) if dl else 0)
+    evals += witness_concurrent_rerun(out, findings)
     for k in range(0, len(batch), 2):
         (na, ha, _, ma), (nm, hm, _, mm) = batch[k], batch[k + 1]
         # builds that follow a cache fault: mode all has to re-execute every selected target whose outputs it cannot restore,
